@@ -52,6 +52,11 @@ for k in range(24):
     if k < 12: tiers["quick"] = {"defines": {"NSLICE": 12, "SLICE": k, "NG1": 4, "NG2": 8}}
     HARNESSES.append(dict(COMMON, name="group_enum_%02d" % k, entry="h_group_enum", encoded=GE_ENC, unwind=20, tiers=tiers, cost=90, object_bits=13,
                           bounds="flat seed S9 (Machine, PUs 0,1,2,5, one NUMA node): a first Group over one of 4 (thorough: 12) cpusets followed by a second one over one of 8 (12) cpusets or none: new Group, merge into an equal object, nesting, conflict (EINVAL, everything unchanged); concrete runs selected by symbolic inputs, dealt to slices; after every step the independent C01 checker, gp_index/userdata/sets of existing objects unchanged"))
+for _seed in (1, 8, 5):
+    for k in range(4):
+        HARNESSES.append(dict(COMMON, name="group_mem_s%d_%d" % (_seed, k), entry="h_group_mem", encoded=GE_ENC + ["hwloc___insert_object_by_cpuset (memory children follow a new parent with equal sets)", "total_memory of the new Group and of the object it covers"], unwind=20,
+                              defines={"GM_SEED": _seed, "NSLICE": 4, "SLICE": k}, tiers={"quick": {}, "thorough": {}} if _seed in (1, 8) else {"thorough": {}}, cost=90, object_bits=13,
+                              bounds="seed S%d (Packages carrying memory children): a Group with dont_merge 0/1 over one of 8 cpusets (equal to a Package, to a PU, to the machine, cutting a Package, a single PU of a Package): 16 concrete runs selected by symbolic inputs, dealt to 4 slices; independent C01 checker (total_memory, memory arities, sets), machine total unchanged, existing objects keep gp_index/sets/userdata, conflicts leave everything unchanged" % _seed))
 # the whole real restrict on seed S2 followed by the independent C01 checker is shared with C08 (same source, same queries)
 _s8 = _iu.spec_from_file_location("spec_C08", os.path.join(os.path.dirname(__file__), "C08.py")); _m8 = _iu.module_from_spec(_s8); _s8.loader.exec_module(_m8)
 for _h in _m8.HARNESSES:
